@@ -441,7 +441,7 @@ def run_natural(spec):
                 out = capture(h, *hargs)
                 trace = prog.H.trace()
                 res.label("handle-of-earlier-build-called")
-                if out.kind != "config" and (len(trace) >= 2 or out.kind in ("nomethod", "ambiguous", "rejected")):
+                if out.kind != "config" and (len(trace) >= 2 or out.kind in ("nomethod", "ambiguous", "rejected", "other", "badcall")):
                     res.fail(
                         f"invalid method ({kind}) registered after first use: a method obtained with f.resolve({p['args']}) "
                         f"before the change, called afterwards with script={p.get('script')}, delegated and got "
